@@ -6,6 +6,7 @@ require (
 	github.com/advancedclimatesystems/gonnx v0.0.0
 	github.com/chewxy/math32 v1.10.1
 	golang.org/x/tools v0.29.0
+	google.golang.org/protobuf v1.31.0
 	gorgonia.org/tensor v0.9.24
 )
 
@@ -22,7 +23,6 @@ require (
 	golang.org/x/sync v0.10.0 // indirect
 	golang.org/x/xerrors v0.0.0-20231012003039-104605ab7028 // indirect
 	gonum.org/v1/gonum v0.14.0 // indirect
-	google.golang.org/protobuf v1.31.0 // indirect
 	gorgonia.org/vecf32 v0.9.0 // indirect
 	gorgonia.org/vecf64 v0.9.0 // indirect
 )
